@@ -32,7 +32,7 @@ def init_order_once(ctx):
     early = [i for c in calls_in(f.node) if call_attr(c) == 'earlyInit' for i in cfg.node_of(c)]
     init = [i for c in calls_in(f.node) if call_attr(c) == 'initModule' for i in cfg.node_of(c)]
     if not early or not init:
-        raise AnchorMissing('earlyInit / initModule calls not found in SecNode.get_module')
+        raise AnchorMissing('earlyInit / initModule calls not found in SecNode.get_module', violation='frappy.secnode.SecNode.get_module:earlyInit and initModule are called')
     tests = [t for t in cfg.nodes if t.kind == 'test' and src(t.ast).endswith('._isinitialized')]
     ok = False
     for t in tests:
@@ -177,7 +177,7 @@ def poll_thread_startup(ctx):
     ir = [i for c in calls_in(pt.node) if call_attr(c) == 'initialReads' for i in cfg.node_of(c)]
     fp = [i for c in calls_in(pt.node) if call_attr(c) == 'callPollFunc' and not any(a is steady[0] for a in ancestors(c)) for i in cfg.node_of(c)]
     if not (wi and ir and fp):
-        raise AnchorMissing('writeInitParams / initialReads / first polls not found in the poll thread')
+        raise AnchorMissing('writeInitParams / initialReads / first polls not found in the poll thread', violation='frappy.modulebase.Module.__pollThread:writes, initial reads and first polls present')
     ctx.check(all(cfg.dominates(wi, i) for i in ir + fp), f'{pt.qualname}:configured writes first', pt.node,
               'writeInitParams dominates initialReads and the first polls', 'a read/poll can happen before the configured values were written', pt)
     ctx.check(all(cfg.dominates(wi, h) for h in head), f'{pt.qualname}:writes before steady loop', pt.node,
@@ -237,7 +237,7 @@ def shutdown_order(ctx):
     shut = [c for c in calls_in(f.node) if call_attr(c) == 'shutdownModule']
     shut_ids = [i for c in shut for i in cfg.node_of(c)]
     if not stop or not shut:
-        raise AnchorMissing('stopPollThread/joinPollThread/shutdownModule calls not found in shutdown_modules')
+        raise AnchorMissing('stopPollThread/joinPollThread/shutdownModule calls not found in shutdown_modules', violation='frappy.secnode.SecNode.shutdown_modules:stop, join and shutdown present')
     ok = not (cfg.reach(shut_ids) & set(stop)) and all(cfg.dominates(stop_anchor, i) for i in shut_ids)
     ctx.check(ok, f'{f.qualname}:pollers stopped before shutdown', f.node, 'every stop/join precedes every shutdownModule',
               'a module can be shut down while a poll thread is still running (or a poller is stopped after a shutdownModule)', f)
